@@ -411,22 +411,38 @@ Fixpoint clause_rops_aux (ra sn : envv) (ops : list rop) (obs all : list robs) :
   end.
 Definition clause_rops (ra sn : envv) (ops : list rop) (obs : list robs) : list tok := clause_rops_aux ra sn ops obs obs.
 
-(* providers: item k must reference provider (snd op)'s own resource object, which lists what it was built from *)
-Definition pobs := option (Z * robs).     (* reference index (-1 = none of the providers), resource seen *)
-Fixpoint clause_emits (rs : list (list (bytes * value) * bytes)) (ops : list (signal * nat)) (obs : list pobs) : list tok :=
-  match ops, obs with
-  | (sg, i) :: ops', o :: obs' =>
-      match nth_error rs i, o with
-      | Some (attrs, schema), Some (ref, r) =>
-          check (ref =? Z.of_nat i) (match sg with
-                                     | SigSpan => "provider_resource_referenced:span"
-                                     | SigLog => "provider_resource_referenced:log_record"
-                                     | SigMetric => "provider_resource_referenced:metric_batch"
-                                     end) ++
-          (if ref <? 0 then [] else clause_new attrs schema r)
-      | Some _, None => fail "provider_resource_referenced:nothing_exported"
-      | None, _ => []
-      end ++ clause_emits rs ops' obs'
-  | [], [] => []
-  | _, _ => fail "obs:wrong_number_of_items"
+(* providers: EVERY item an exporter or reader callback receives - with or without data - must reference the
+   resource object of the provider it came through, and that resource lists what the provider was built from *)
+Definition pobs := option (Z * robs * bool).     (* reference index (-1 = none of the providers, -2 = null), resource seen, has data *)
+Definition pop_target (op : pop) : option (signal * nat) :=
+  match op with
+  | PE sg i => Some (sg, i)
+  | PK _ i => Some (SigMetric, i)
+  | _ => None
+  end.
+Fixpoint clause_emits (rs : list (list (bytes * value) * bytes)) (ops : list pop) (obs : list pobs) : list tok :=
+  match ops with
+  | [] => match obs with [] => [] | _ => fail "obs:wrong_number_of_items" end
+  | op :: ops' =>
+      match pop_target op with
+      | None => clause_emits rs ops' obs
+      | Some (sg, i) =>
+          match obs with
+          | [] => fail "obs:wrong_number_of_items"
+          | o :: obs' =>
+              match nth_error rs i, o with
+              | Some (attrs, schema), Some (ref, r, has_data) =>
+                  check (ref =? Z.of_nat i)
+                        (match sg with
+                         | SigSpan => "provider_resource_referenced:span"
+                         | SigLog => "provider_resource_referenced:log_record"
+                         | SigMetric => if has_data then "provider_resource_referenced:metric_batch"
+                                        else "provider_resource_referenced:metric_batch_without_data"
+                         end) ++
+                  (if ref <? 0 then [] else clause_new attrs schema r)
+              | Some _, None => fail "provider_resource_referenced:nothing_exported"
+              | None, _ => []
+              end ++ clause_emits rs ops' obs'
+          end
+      end
   end.
